@@ -10,6 +10,7 @@ import (
 	"github.com/flanglet/kanzi-go/v2/bitstream"
 	kio "github.com/flanglet/kanzi-go/v2/io"
 
+	"verif/harness/fio"
 	"verif/harness/gen"
 	"verif/harness/kfmt"
 )
@@ -187,4 +188,51 @@ func openReader(src io.ReadCloser, cfg gen.Config, jobs uint, extra map[string]a
 		rd.AddListener(l)
 	}
 	return rd, nil
+}
+
+// CompressWith is Compress through NewWriterWithCtx: extra context entries
+// (e.g. "verbosity") and an optional listener, as the command-line tool uses the Writer.
+func CompressWith(data []byte, cfg gen.Config, writeSizes []int, extra map[string]any, l kanzi.Listener) (stream []byte, err error) {
+	sink := &fio.Sink{}
+	err = guard(func() error {
+		ctx := map[string]any{"transform": cfg.Transform, "entropy": cfg.Entropy, "blockSize": cfg.BlockSize, "jobs": cfg.Jobs,
+			"checksum": cfg.Checksum, "headerless": cfg.Headerless}
+		if cfg.Hint > 0 {
+			ctx["fileSize"] = cfg.Hint
+		}
+		for k, v := range extra {
+			ctx[k] = v
+		}
+		w, e := kio.NewWriterWithCtx(sink, ctx)
+		if e != nil {
+			return fmt.Errorf("ctor: %w", e)
+		}
+		if l != nil {
+			w.AddListener(l)
+		}
+		if e := WriteAll(w, data, writeSizes); e != nil {
+			return e
+		}
+		if e := w.Close(); e != nil {
+			return fmt.Errorf("close: %w", e)
+		}
+		return nil
+	})
+	return sink.Data, err
+}
+
+// DecompressWith is Decompress through NewReaderWithCtx with extra context entries and an optional listener.
+func DecompressWith(stream []byte, cfg gen.Config, jobs uint, bufSizes []int, extra map[string]any, l kanzi.Listener) ([]byte, error) {
+	var out []byte
+	err := guard(func() error {
+		r, e := openReader(fio.NewSource(stream), cfg, jobs, extra, l)
+		if e != nil {
+			return fmt.Errorf("reader ctor: %w", e)
+		}
+		defer r.Close()
+		var e2 error
+		out, e2 = Drain(r, bufSizes)
+		return e2
+	})
+	return out, err
 }
